@@ -30,7 +30,16 @@ def build(need_cli, race):
     except OSError as e:
         return "cannot copy go.sum: %s" % e
     out = "vworker.race" if race else "vworker"
-    cmd = ["go", "build", "-tags", "verif"] + (["-race"] if race else []) + ["-o", os.path.join(BUILD, out), "./cmd/vworker"]
+    modfile = []
+    if os.path.realpath(REPO) != "/repo":
+        # scratch copy of the repository (sensitivity runs, background sweeps): same module, other replace target
+        with open(os.path.join(HARNESS, "go.mod")) as f:
+            mod = f.read().replace("=> /repo", "=> " + os.path.realpath(REPO))
+        with open(os.path.join(BUILD, "alt.mod"), "w") as f:
+            f.write(mod)
+        shutil.copyfile(os.path.join(REPO, "go.sum"), os.path.join(BUILD, "alt.sum"))
+        modfile = ["-modfile=" + os.path.join(BUILD, "alt.mod")]
+    cmd = ["go", "build", "-tags", "verif"] + modfile + (["-race"] if race else []) + ["-o", os.path.join(BUILD, out), "./cmd/vworker"]
     rc, txt = run(cmd, HARNESS)
     if rc != 0:
         return "go build vworker failed:\n" + txt[-3000:]
@@ -92,7 +101,7 @@ class Runner:
         while cur < b:
             wd = tempfile.mkdtemp(prefix="w", dir=self.tmp)
             outp, errp = os.path.join(wd, "out"), os.path.join(wd, "err")
-            env = dict(GOENV, VERIF_GOTREE=os.path.join(BUILD, "gotree"), VERIF_TMP=wd,
+            env = dict(GOENV, VERIF_GOTREE=os.path.join(BUILD, "gotree"), VERIF_TMP=wd, VERIF_REPO=REPO,
                        GORACE="halt_on_error=0 log_path=%s" % os.path.join(wd, "race"), GOTRACEBACK="all")
             cmd = [self.exe, "-prop", self.prop, "-tier", self.tier, "-seed", str(self.seed),
                    "-from", str(cur), "-to", str(b)]
